@@ -341,6 +341,31 @@ void run_level(vf::Ctx& c)
             bool any = false;
             for (std::size_t i = 0; i != channels; ++i) { if (before.channel_weights()[i] > T(0) && before.adjustment_data()[i] > T(0)) { any = true; } }
             long double const floor = static_cast<long double>(minw) / (1.0L + channels * static_cast<long double>(minw)) * (1.0L - 8 * vf::eps<T>());
+            // the documented refinement of the previous result with the beta and the minimum weight the run was configured with
+            if (any)
+            {
+                std::vector<T> const& a0 = before.channel_weights();
+                std::vector<T> const& d0 = before.adjustment_data();
+                std::vector<long double> raw(channels, 0.0L), u(channels, 0.0L);
+                long double norm = 0, usum = 0;
+                bool denormal = false;
+                long double const tiny = std::numeric_limits<T>::min();
+                for (std::size_t i = 0; i != channels; ++i)
+                {
+                    raw[i] = static_cast<long double>(a0[i]) * std::pow(static_cast<long double>(d0[i]), static_cast<long double>(beta));
+                    norm += raw[i];
+                    if (raw[i] > 0 && raw[i] < tiny * std::ldexp(1.0L, std::numeric_limits<T>::digits)) { denormal = true; }
+                }
+                for (std::size_t i = 0; i != channels; ++i) { if (raw[i] > 0) { u[i] = std::max<long double>(raw[i] / norm, minw); usum += u[i]; } }
+                for (std::size_t i = 0; i != channels && !denormal && std::isfinite(norm); ++i)
+                {
+                    if (!(raw[i] > 0)) { continue; }
+                    long double const ref = u[i] / usum;
+                    VF_CHECK(c, std::fabs(static_cast<long double>(wk[i]) - ref) <= (8.0L + 2.0L * channels) * vf::eps<T>() * ref + 4 * tiny, "C08:run-model", "iteration " << k << ": channel " << i
+                        << " has weight " << vf::show(wk[i]) << ", the refinement of the previous result with beta " << vf::show(beta) << " and minimum weight " << vf::show(minw) << " gives "
+                        << vf::show<long double>(ref));
+                }
+            }
             for (std::size_t i = 0; any && i != channels; ++i)
             {
                 if (before.channel_weights()[i] > T(0) && before.adjustment_data()[i] > T(0))
